@@ -6,8 +6,15 @@ Support for the atomicity ASSUMPTION (not a proof): fault enumeration.  A short 
 database or its journal, for EVERY N; after each kill a fresh process reads the file with sqlite3 directly
 and with a fresh BuildDB.  The observed snapshot must be the model's snapshot before or after the operation
 that was in progress (or "no schema" while `open` recreates the file), move forward only as N grows, satisfy
-the C04 invariant, and the BuildDB's view must be the python Spec's view before or after that operation."""
-import os, shutil, subprocess
+the C04 invariant, and the BuildDB's view must be the python Spec's view before or after that operation.
+
+Histories: short multi-build ones (kill_history) and SIZED ones (sized_history): one build of the history stores
+n results with n drawn from every half-decade between 3 and 3162 (thorough: to 10000, plus one build whose
+transaction is larger than SQLite's page cache, so that pages are spilled to the file before the commit).  After
+every kill a fresh process additionally CONTINUES: it opens the survivor, runs one more well-formed build (epoch =
+stored epoch + 1) and the result must again satisfy the invariant and differ from the survivor by exactly the rows
+that build stored."""
+import copy, json, os, shutil, subprocess
 from concurrent.futures import ThreadPoolExecutor
 from .. import common as C
 from ..runner import PropertyCheck
@@ -54,6 +61,74 @@ def kill_history(rng, sv, nbuilds):
         it = e
     lines.append("drop 0")
     return lines
+
+
+HALF_DECADES = [3, 10, 32, 100, 316, 1000, 3162, 10000]
+
+
+def sized_history(rng, sv, size, value_len=12):
+    """like kill_history, but ONE build of the history stores `size` results (setRuleResult calls; mostly distinct
+    keys, some stored twice, dependencies on earlier and on not-yet-stored keys); the other builds are small.
+    returns (lines, meta)"""
+    pool = [b"k%d" % i for i in range(size + 4)]
+    odd = c03.key_pool(rng, False)[:3]
+    lines = ["new 0 1 1", "epoch 0"]
+    nb = 2 + rng.below(2)
+    big = rng.below(nb)
+    it = 0
+    span = None
+    filler = bytes(rng.below(256) for _ in range(64))
+    for b in range(nb):
+        if b > 0 and rng.chance(1, 2):
+            lines += ["drop 0", "new 0 1 1"]      # a later process
+        first = len(lines)
+        lines.append("start 0")
+        e = it + 1
+        n = size if b == big else 1 + rng.below(3)
+        for j in range(n):
+            if b == big:
+                k = pool[j] if rng.chance(7, 8) else pool[rng.below(j + 1)]
+                near = pool[max(0, j - 6):j + 3]
+            else:
+                k = rng.choice(odd) if rng.chance(1, 3) else pool[rng.below(size + 4)]
+                near = pool[:8] + odd
+            deps = [(rng.choice(near), rng.below(4)) for _ in range(rng.below(3))]
+            comp = e if rng.chance(1, 2) else 1 + rng.below(e)
+            if value_len > 64:
+                v = (bytes([rng.below(256), j & 255]) + filler * (value_len // 64 + 1))[:value_len - rng.below(32)]
+            else:
+                v = c03.rand_value(rng)
+            lines.append("set 0 %s %s %d %d %d %s" % (C.hexs(k), C.hexs(v), rng.below(1 << 32), e, comp, c03.fmt_deps(deps)))
+        lines.append("setiter 0 %d" % e)
+        lines.append("complete 0")
+        if b == big:
+            span = (first, len(lines) - 1)
+        it = e
+    lines.append("drop 0")
+    return lines, {"size": size, "value_len": value_len, "builds": nb, "large_build_index": big, "large_build_ops": span}
+
+
+def continued_build(snap, rng_word):
+    """op lines of one more well-formed build on a surviving file (fresh BuildDB, the survivor's client version):
+    epoch = stored epoch + 1, one result for a key the history may have stored and one for a new key"""
+    cl = snap["client"] if snap else 1
+    e = (snap["iteration"] if snap else 0) + 1
+    k1, k2 = b"k1", b"continued"
+    sets = [(k1, b"\x01" + bytes([rng_word & 255]), 7, e, e, [(k2, 0)]), (k2, b"", 9, e, 1, [])]
+    lines = ["new 1 %d 1" % cl, "epoch 1", "start 1"]
+    for k, v, sig, bu, co, deps in sets:
+        lines.append("set 1 %s %s %d %d %d %s" % (C.hexs(k), C.hexs(v), sig, bu, co, c03.fmt_deps(deps)))
+    lines += ["setiter 1 %d" % e, "complete 1", "drop 1", "raw", "new 2 %d 0" % cl, "keys 2", "epoch 2", "drop 2"]
+    rows = {C.hexs(k): "key=%s|%s" % (C.hexs(k), c03.fmt_result({"value": v, "sig": sig, "built": bu, "computed": co, "deps": deps})) for k, v, sig, bu, co, deps in sets}
+    return lines, e, rows
+
+
+def view_rows(keys_line):
+    """'n=2/2 ; key=..|.. ; key=..|..' -> {key hex: row text}"""
+    out = {}
+    for r in keys_line.split(" ; ")[1:]:
+        out[r[4:].split("|", 1)[0]] = r
+    return out
 
 
 def parse_raw(raw):
@@ -115,6 +190,9 @@ class Check(PropertyCheck):
                 # follow-up: reads included, any number of connection slots interleaved
                 "LLBuild.BuildDB.C04_committed_inv_all", "LLBuild.BuildDB.C04_snap_inv_unconditional", "LLBuild.BuildDB.C04_slots_inv",
                 "LLBuild.BuildDB.C04_inv1_all", "LLBuild.BuildDB.C04_read_preserves_inv1", "LLBuild.BuildDB.C04_no_epoch_reuse_all",
+                # the transaction shape of the whole source file is the one the model assumes (extracted on every run), and in
+                # the model nothing a build does between buildStarted and buildComplete changes the committed snapshot
+                "LLBuild.BuildDB.C04_one_transaction_per_build",
                 # engine level (abstract engine with the `crash` event; Props/C04Engine.lean)
                 "LLBuild.Engine.C04_continue_clean", "LLBuild.Engine.C04_crash_rolls_back",
                 "LLBuild.Engine.C04_commit_only_at_build_complete", "LLBuild.Engine.C04_no_epoch_reuse_engine",
@@ -122,16 +200,21 @@ class Check(PropertyCheck):
     extractors = ["x_sqlitedb", "x_enginefp"]
     harnesses = [("vc03", "plain"), ("vengine", "plain")]
     assumptions = [
-        "SQLite's rollback journal makes BEGIN EXCLUSIVE .. END atomic and durable across process death (supported, not proved, by the kill-point enumeration: every system call on the database/journal of every transaction of short histories)",
+        "SQLite's rollback journal makes BEGIN EXCLUSIVE .. END atomic and durable across process death (supported, not proved, by the kill-point enumeration: every system call on the database/journal of every transaction of short histories and of histories in which one build stores 3 .. 3162 results (thorough: .. 10000, and one transaction larger than SQLite's page cache), each survivor also continued by one more build)",
+        "one transaction per build is read off the source text: C04_one_transaction_per_build compares the extractor's list of transaction-control / PRAGMA statements per function, of SQL arguments that are not literals, and of sqlite3 API functions used, with the shape the model assumes; SQL text assembled at run time would be visible only as a new non-literal argument or API function",
         "WellFormedBuild (explicit hypothesis of C04_committed_inv): writes happen inside buildStarted/buildComplete, every epoch written is <= e = stored iteration + 1, and setCurrentIteration(e) precedes buildComplete (BuildEngine.cpp:1561,1605)",
         "C04_committed_inv is proved for histories of ONE connection slot at a time (processes in sequence); concurrent connections are covered by C03_writes_need_lock only",
         "engine-level clause (builds continued after a crash return clean results): proved on the abstract engine with a `crash` event at any point (C04_continue_clean; hypotheses Program.WF and pendingDropped = false, known finding F22) and exercised on the real engine by killing a forked build process before its n-th observable event; the observing database of that harness is in memory, so SQLite's journal is not part of this stream",
     ]
     trusted_base = ["extractor x_sqlitedb", "harness vc03 + LD_PRELOAD shim harness/vshim.c", "python restatement of the invariant (invariant_failures) and Spec"]
 
-    def run_kills(self, ctx, res, lines, scratch, shim, sv, pool):
+    def run_kills(self, ctx, res, lines, scratch, shim, sv, pool, meta=None, only=None):
+        """enumerate the kill points of one history (all of them, or the list `only` when replaying);
+        returns the number that fired"""
         exe = ctx.exe[("vc03", "plain")]
         dbpath = os.path.join(scratch, "c03.db")
+        meta = dict(meta or {})
+        span = meta.get("large_build_ops")
 
         def clean(d):
             shutil.rmtree(d, ignore_errors=True)
@@ -146,16 +229,8 @@ class Check(PropertyCheck):
             return 0
         mout = [l.split(" || ")[0] for l in m[1]]
         snaps = ["noschema"] + [l.split(" || ")[1] for l in m[1]]      # snaps[i] = committed before op i ; snaps[i+1] after
-        # Spec views (what a fresh read-only BuildDB must see) before / after every op
-        views = []
-        for i in range(len(lines) + 1):
-            sp = c03.Spec(sv)
-            for l in lines[:i]:
-                sp.expect(l)
-            sp.expect("crash")
-            cl = sp.file["client"] if sp.file else 1
-            sp.expect("new 9 %d 0" % cl)
-            views.append((sp.expect("keys 9"), sp.expect("epoch 9")))
+        hshort = [c03.short(x) for x in lines]
+        exact = hshort == lines
         # counting pass (also a plain correspondence run)
         clean(scratch)
         cf = os.path.join(scratch, "count")
@@ -163,7 +238,7 @@ class Check(PropertyCheck):
         rc, out, err = C.run_lines([exe, "db", scratch], lines, env=env)
         if rc != 0 or out != mout:
             bad = next((i for i in range(min(len(out), len(mout))) if out[i] != mout[i]), min(len(out), len(mout)))
-            res.mismatches.append({"stream": "c04db", "input": {"history": [c03.short(x) for x in lines[:bad + 1]]},
+            res.mismatches.append({"stream": "c04db", "input": {"history": hshort[max(0, bad - 40):bad + 1], "sized": meta or None},
                                    "model": mout[bad] if bad < len(mout) else "", "impl": out[bad] if bad < len(out) else "exit %d" % rc})
             return 0
         total = int(open(cf).read())
@@ -182,53 +257,113 @@ class Check(PropertyCheck):
             except Exception:
                 pass
             cl = snap["client"] if snap else 1
-            rc3, o3, e3 = C.run_lines([exe, "db", d], ["new 0 %d 0" % cl, "keys 0", "epoch 0", "drop 0", "raw"])
+            # the next process: reads everything (must not change the file), then CONTINUES with one more build
+            cont, ce, crows = continued_build(snap, n)
+            rc3, o3, e3 = C.run_lines([exe, "db", d], ["new 0 %d 0" % cl, "keys 0", "epoch 0", "drop 0", "raw"] + cont)
             shutil.rmtree(d, ignore_errors=True)
-            return n, rc, len(out), raw, snap, o3
+            return n, rc, len(out), raw, snap, o3[:5], (cont, ce, crows, o3[5:])
 
         fired = 0
         last_idx = 0
-        results = list(pool.map(one, range(1, total + 1)))
-        for n, rc, done, raw, snap, o3 in results:
-            ctxd = {"history": [c03.short(x) for x in lines], "kill_before_call": n, "ops_completed": done,
-                    "op_in_progress": c03.short(lines[done]) if done < len(lines) else None}
+        in_large = in_set = 0
+        reported = {}
+
+        def fail(kind, what, ctxd, **extra):
+            # one history produces the same failure at many neighbouring kill points: keep the first few of each kind
+            reported[kind] = reported.get(kind, 0) + 1
+            if reported[kind] <= 3:
+                res.oracle_failures.append(dict({"what": what, "kind": kind, "input": dict(ctxd, **extra)}, **({"sized": True} if meta else {})))
+
+        results = list(pool.map(one, only if only is not None else range(1, total + 1)))
+        # Spec views (what a fresh read-only BuildDB must see) before / after every op that was in progress at a kill
+        need = sorted({min(i, len(lines)) for r in results for i in (r[2], r[2] + 1)})
+        views = {}
+        sp, at = c03.Spec(sv), 0
+        for i in need:
+            while at < i:
+                sp.expect(lines[at])
+                at += 1
+            s2 = copy.deepcopy(sp)
+            s2.expect("crash")
+            cl = s2.file["client"] if s2.file else 1
+            s2.expect("new 9 %d 0" % cl)
+            views[i] = (s2.expect("keys 9"), s2.expect("epoch 9"))
+        for n, rc, done, raw, snap, o3, cont in results:
+            ctxd = {"history": hshort, "history_exact": exact, "kill_before_call": n, "ops_completed": done,
+                    "op_in_progress": hshort[done] if done < len(lines) else None}
+            if meta:
+                ctxd["sized"] = meta
             if rc != 99:
-                res.oracle_failures.append({"what": "kill point %d did not fire (exit %d)" % (n, rc), "kind": "shim", "input": ctxd})
+                fail("shim", "kill point %d did not fire (exit %d)" % (n, rc), ctxd)
                 continue
             fired += 1
+            if span and span[0] <= done <= span[1]:
+                in_large += 1
+                if done < len(lines) and lines[done].startswith("set "):
+                    in_set += 1
+            # the python restatement of C04_committed_inv on whatever survived
+            bad = invariant_failures(snap)
+            if bad:
+                fail("invariant", "surviving database violates the consistency invariant: " + "; ".join(bad[:3]) + (" (and %d more rows)" % (len(bad) - 3) if len(bad) > 3 else ""), ctxd)
             pre, post = snaps[done], snaps[min(done + 1, len(lines))]
             allowed = {pre: done, post: done + 1}
             recreating = post != pre and post.endswith("keys=. rows=.") and pre != "noschema"
             if recreating:
                 allowed.setdefault("noschema", done)
             if raw not in allowed:
-                res.oracle_failures.append({"what": "after a kill the file holds a snapshot that is neither the one before nor the one after the operation in progress: %s" % c03.short(raw)[:300],
-                                            "kind": "torn-snapshot", "input": dict(ctxd, pre=c03.short(pre)[:300], post=c03.short(post)[:300])})
+                fail("torn-snapshot", "after a kill the file holds a snapshot that is neither the one before nor the one after the operation in progress: %s" % c03.short(raw)[:300],
+                     ctxd, pre=c03.short(pre)[:300], post=c03.short(post)[:300])
                 continue
             idx = allowed[raw]
             if raw == post and raw == pre:
                 idx = done
             if idx < last_idx:
-                res.oracle_failures.append({"what": "the surviving snapshot moved backwards as the kill point advanced", "kind": "non-monotone", "input": ctxd})
+                fail("non-monotone", "the surviving snapshot moved backwards as the kill point advanced", ctxd)
             last_idx = max(last_idx, idx)
-            for b in invariant_failures(snap):
-                res.oracle_failures.append({"what": "surviving database violates the consistency invariant: " + b, "kind": "invariant", "input": ctxd})
             # the BuildDB's own view of the surviving file
             if len(o3) != 5:
-                res.oracle_failures.append({"what": "the next process could not read the database (%r)" % (o3,), "kind": "unusable", "input": ctxd})
+                fail("unusable", "the next process could not read the database (%r)" % (o3,), ctxd)
                 continue
             got = (o3[1], o3[2])
             want = {views[done], views[min(done + 1, len(lines))]}
             if recreating or snap is None:
                 want.add(("error=version", "error=version"))
             if got not in want:
-                res.oracle_failures.append({"what": "after a kill a fresh BuildDB sees %s / %s, which is neither the state before nor after the operation in progress" % (c03.short(got[0])[:200], got[1]),
-                                            "kind": "torn-view", "input": ctxd})
+                fail("torn-view", "after a kill a fresh BuildDB sees %s / %s, which is neither the state before nor after the operation in progress" % (c03.short(got[0])[:200], got[1]), ctxd)
             if snap is not None and not got[0].startswith("error") and got[0] != keys_view(snap):
-                res.oracle_failures.append({"what": "BuildDB and sqlite3 disagree about the surviving file", "kind": "view-vs-file", "input": ctxd})
+                fail("view-vs-file", "BuildDB and sqlite3 disagree about the surviving file", ctxd)
             if o3[4] != raw:
-                res.oracle_failures.append({"what": "reading the surviving database changed it", "kind": "read-mutates", "input": ctxd})
-        res.evaluations += total
+                fail("read-mutates", "reading the surviving database changed it", ctxd)
+            # the continued build: usable for writing, consistent again, and nothing but its own rows changed
+            clines, ce, crows, co = cont
+            ctxc = dict(ctxd, continued_build=clines)
+            want_out = ["ok", "epoch=%d" % (ce - 1), "ok", "ok", "ok", "ok", "ok", "ok"]
+            if len(co) != len(clines) or co[:8] != want_out or co[9] != "ok":
+                fail("continued-build", "a build continued from the surviving database failed: %r" % ([c03.short(x)[:80] for x in co],), ctxc)
+                continue
+            try:
+                snap2 = parse_raw(co[8])
+            except Exception:
+                snap2 = None
+            if snap2 is None:
+                fail("continued-build", "after the continued build the file is unreadable: %s" % co[8][:200], ctxc)
+                continue
+            bad = invariant_failures(snap2)
+            if bad:
+                fail("continued-build", "after the continued build the database violates the consistency invariant: " + "; ".join(bad[:3]), ctxc)
+            before = {} if got[0].startswith("error") else view_rows(got[0])
+            expect_rows = dict(before)
+            expect_rows.update(crows)
+            after = view_rows(co[10])
+            if snap2["iteration"] != ce or co[11] != "epoch=%d" % ce or after != expect_rows or co[10] != keys_view(snap2):
+                diff = sorted(k for k in set(after) | set(expect_rows) if after.get(k) != expect_rows.get(k))
+                fail("continued-build", "the continued build did not leave exactly the survivor's results plus its own (%s, differing keys %s)" % (co[11], diff[:6]), ctxc)
+        res.evaluations += len(results)
+        d = res.distribution
+        d["kill_points_inside_the_large_build"] = d.get("kill_points_inside_the_large_build", 0) + in_large
+        d["kill_points_inside_a_setRuleResult_of_the_large_build"] = d.get("kill_points_inside_a_setRuleResult_of_the_large_build", 0) + in_set
+        d["repeated_failures_not_listed"] = d.get("repeated_failures_not_listed", 0) + sum(max(0, v - 3) for v in reported.values())
+        d["continued_builds_checked"] = d.get("continued_builds_checked", 0) + fired
         return fired
 
     def engine_crashes(self, ctx, res):
@@ -252,7 +387,24 @@ class Check(PropertyCheck):
         for f in res.oracle_failures[before:]:
             f["stream"] = "engine-crash"
 
+    def replay(self, ctx, res, shim, sv, base):
+        """./check C04 --replay <file>: re-run the recorded kill point of the recorded history"""
+        f = json.load(open(ctx.replay_path)).get("failure", {})
+        inp = f.get("input", {})
+        if not isinstance(inp, dict) or not inp.get("history_exact") or "kill_before_call" not in inp:
+            C.log("C04: this replay file holds no exact database-layer history (engine-crash stream, or abbreviated keys)")
+            return
+        with ThreadPoolExecutor(max_workers=2) as pool:
+            n = self.run_kills(ctx, res, inp["history"], os.path.join(base, "replay"), shim, sv, pool, meta=inp.get("sized"), only=[inp["kill_before_call"]])
+        shutil.rmtree(base, ignore_errors=True)
+        C.log("C04 replay: kill before call %d fired=%d, oracle failures %d" % (inp["kill_before_call"], n, len(res.oracle_failures)))
+
     def correspond(self, ctx, res):
+        if getattr(ctx, "replay_path", None):
+            shim, out = build_shim()
+            if shim is not None:
+                self.replay(ctx, res, shim, c03.schema_version(), os.path.join(C.BUILD, "scratch", "c04-%d" % os.getpid()))
+                return
         self.engine_crashes(ctx, res)
         shim, out = build_shim()
         if shim is None:
@@ -260,16 +412,30 @@ class Check(PropertyCheck):
             return
         sv = c03.schema_version()
         rng = ctx.rng
-        nh = 40 if ctx.thorough else 5
         base = os.path.join(C.BUILD, "scratch", "c04-%d" % os.getpid())
+        nh = 40 if ctx.thorough else 5
         fired = 0
         sizes = []
+        sized = []
         with ThreadPoolExecutor(max_workers=12) as pool:
             for h in range(nh):
                 lines = kill_history(rng, sv, 2 + rng.below(2) + (1 if ctx.thorough else 0))
                 f = self.run_kills(ctx, res, lines, os.path.join(base, "h%d" % h), shim, sv, pool)
                 fired += f
                 sizes.append(f)
+            # sized histories: the number of results one build stores, one draw from every half-decade
+            srng = C.Rng(ctx.seed, "C04/sized")
+            bounds = HALF_DECADES if ctx.thorough else HALF_DECADES[:7]
+            plan = [(lo + srng.below(hi - lo), 12) for _ in range(2 if ctx.thorough else 1) for lo, hi in zip(bounds, bounds[1:])]
+            if ctx.thorough:
+                # a transaction larger than SQLite's default page cache (2000 KiB): dirty pages are spilled to the
+                # database file (after a journal sync) long before END
+                plan.append((1100 + srng.below(300), 2048 + srng.below(1024)))
+            for h, (size, vlen) in enumerate(plan):
+                lines, meta = sized_history(srng, sv, size, vlen)
+                f = self.run_kills(ctx, res, lines, os.path.join(base, "s%d" % h), shim, sv, pool, meta=meta)
+                fired += f
+                sized.append({"results_stored_by_the_large_build": size, "value_bytes": vlen, "builds": meta["builds"], "kill_points_fired": f})
         shutil.rmtree(base, ignore_errors=True)
         # the model-vs-implementation op correspondence of C03 with crashes (soft crash = objects destroyed)
         lines = []
@@ -295,11 +461,15 @@ class Check(PropertyCheck):
         res.distribution["kill_points_fired"] = fired
         res.distribution["kill_points_per_history"] = sizes
         res.distribution["kill_histories"] = nh
+        res.distribution["sized_histories"] = sized
         res.extra["kill_points_fired"] = fired
-        C.log("C04: %d kill points fired over %d histories" % (fired, nh))
+        C.log("C04: %d kill points fired over %d short histories and %d sized ones (largest build: %d results)" % (
+            fired, nh, len(sized), max(x["results_stored_by_the_large_build"] for x in sized)))
         res.rule = ("kill-point enumeration: for every N from 1 to the number of system calls (open/openat/write/pwrite/fsync/fdatasync/ftruncate/"
-                    "unlink/rename) that touch the database or its journal during a short multi-build history, the history is run in a child and "
-                    "killed before the N-th call; the survivor is read with sqlite3 and with a fresh BuildDB.  Non-trivial = kill points that fired.  "
+                    "unlink/rename) that touch the database or its journal during a multi-build history (short ones, and sized ones in which one build "
+                    "stores n results, n drawn from every half-decade from 3 to 3162 / 10000, plus in the thorough tier a transaction larger than the "
+                    "page cache), the history is run in a child and killed before the N-th call; the survivor is read with sqlite3 and with a fresh "
+                    "BuildDB, which then continues with one more build.  Non-trivial = kill points that fired.  "
                     "This supports the atomicity assumption; it is not part of the proof.")
         res.exhaustive = False
 
